@@ -138,6 +138,9 @@ def run_variant(prog: dict, variant: Any, keep_outputs: bool = False) -> dict:
         ref, values = runprog.numpy_reference(prog, data)
         if ref is None:
             continue
+        if runprog.int_overflow_risk(values):
+            res["skipped_overflow"] = res.get("skipped_overflow", 0) + 1
+            continue
         try:
             got = bp(**{k: v for k, v in data.items() if k in ph_names
                         and k in bp.kernel.arg_dict})
@@ -147,6 +150,7 @@ def run_variant(prog: dict, variant: Any, keep_outputs: bool = False) -> dict:
                                     "where": traceback.format_exc().splitlines()[-3][:200]})
             break
         scale = runprog.scale_of(data, values)
+        single = runprog.single_precision_involved(data, values)
         if keep_outputs and kind == "normal":
             res["outputs"] = {k: got[k] for k in declared if k in got}
             res["scale"] = scale
@@ -165,7 +169,7 @@ def run_variant(prog: dict, variant: Any, keep_outputs: bool = False) -> dict:
                 res["problems"].append({"clause": "declared_dtype", "exc": "",
                                         "what": f"{name}: returned dtype {g.dtype}, "
                                                 f"declared {dtype}"})
-            msg = runprog.compare(g, ref[name], dtype, scale)
+            msg = runprog.compare(g, ref[name], dtype, scale, single)
             res["compared"] += 1
             if msg:
                 res["problems"].append({"clause": "value", "exc": kind,
@@ -274,6 +278,8 @@ def main(tier: str, only: list[dict] | None = None) -> int:
                           record=by_id[r["id"]],
                           sig={"clause": pr["clause"], "exc": pr.get("exc", ""),
                                "ops": "+".join(r["ops"]) if len(r["ops"]) <= 2 else "many",
+                               "has_zeros_like": any(c["op"] in ("zeros_like", "ones_like")
+                                                     for c in by_id[r["id"]]["calls"]),
                                "what": pr["what"][:80]})
     check_kernels(run, kernels, by_id)
     run.coverage.update({
